@@ -241,5 +241,5 @@ pub fn case(tape: &[u8], ctx: &Ctx) -> Outcome {
 }
 
 pub fn property() -> Property {
-    Property { id: "C20", rule: RULE, phases: vec![Phase::Prop { name: "gzip header write and capture", f: case, quick: 100_000, thorough: 3_000_000, max_tape: 300 }] }
+    Property { id: "C20", rule: RULE, phases: vec![Phase::Prop { name: "gzip header write and capture", f: case, quick: 400_000, thorough: 5_000_000, max_tape: 300 }] }
 }
